@@ -160,7 +160,7 @@ class Lib:
 
 
 GUARD = 512  # bytes of canary on each side
-CANARY = 0xA5
+CANARY = 0x7F   # as double 1.4e306, as int64 9.2e18: an out-of-extent read that influences a result becomes visible
 
 
 class Buf:
